@@ -319,6 +319,8 @@ func (mpt *MerklePatriciaTrie) Iterate(ctx context.Context, handler MPTIteratorH
 /*IterateFrom - iterate the trie from a given node */
 func (mpt *MerklePatriciaTrie) IterateFrom(ctx context.Context, node Key, handler MPTIteratorHandler, visitNodeTypes byte) error {
 	//NOTE: we don't have the path to this node. So, the handler gets the partial path starting from this node
+	mpt.mutex.RLock()
+	defer mpt.mutex.RUnlock()
 	return mpt.iterate(ctx, Path{}, node, handler, visitNodeTypes)
 }
 
